@@ -425,7 +425,19 @@ class Interp:
             return self._from_ev(self.ev(s.value, st), assign1)
         if isinstance(s, ast.AugAssign):
             def aug(v, s2):
-                self.assign_target(s.target, Sym('aug', node=s), s2)
+                cur = None
+                if isinstance(s.target, ast.Name):
+                    cur = self.lookup_name(s.target.id, s2)
+                newv = None
+                if isinstance(cur, K) and isinstance(v, K) and isinstance(cur.v, (int, str, tuple)) \
+                        and isinstance(v.v, (int, str, tuple)) and not isinstance(cur.v, bool):
+                    # counters / constant accumulation: fold
+                    fv = self.fo._binop(s.op, cur.v, v.v)
+                    if not is_unknown(fv):
+                        newv = K(fv)
+                s2.trace.append(Event('aug', (unparse(s.target), type(s.op).__name__, v), s, s2.frame.func))
+                self.assign_target(s.target, newv if newv is not None else Sym('aug', node=s,
+                                                                                  origin=('aug', cur, v)), s2)
                 return [Outcome(NORMAL, None, s2)]
 
             return self._from_ev(self.ev(s.value, st), aug)
